@@ -334,3 +334,8 @@ def finalize(ctx):
         ctx.inconc("no realization was compared")
     if ctx.counters.get("derived_programs", 0) == 0:
         ctx.inconc("no derived program was computed")
+
+
+RULE += (
+    " After the first realization the harness goes on drawing from the leaf's generator; recomputation, rebuilds and pickles must still give the first realization."
+)
